@@ -1,0 +1,288 @@
+//go:build verif
+
+// Verification-only hooks. This file only adds code and only exists for the
+// compiler when the build tag `verif` is set; nothing here is called by the
+// library itself.
+
+package art
+
+import (
+	"fmt"
+	"reflect"
+	"strings"
+	"unsafe"
+)
+
+// ---- read-only structural walker -------------------------------------------
+
+type verifLeafFn func(unsafe.Pointer) (gk, tk []byte, val string)
+
+func verifHex(b []byte) string { return fmt.Sprintf("%x", b) }
+
+func verifDumpRef(sb *strings.Builder, ref nodeRef, leaf verifLeafFn) {
+	if ref.pointer == nil {
+		sb.WriteString("-")
+		return
+	}
+	if ref.tag == nodeKindLeaf {
+		gk, tk, v := leaf(ref.pointer)
+		fmt.Fprintf(sb, "L(%s,%s,%s)", verifHex(gk), verifHex(tk), v)
+		return
+	}
+	n := ref.node()
+	hd := fmt.Sprintf("%d,%s,%d", n.prefixLen, verifHex(n.prefix[:]), n.childrenLen)
+	list := func(refs []nodeRef) {
+		sb.WriteString("[")
+		for i := range refs {
+			if i > 0 {
+				sb.WriteString(";")
+			}
+			verifDumpRef(sb, refs[i], leaf)
+		}
+		sb.WriteString("]")
+	}
+	switch ref.tag {
+	case nodeKind4:
+		n4 := (*node4)(ref.pointer)
+		fmt.Fprintf(sb, "4(%s,%08x,", hd, n4.keys)
+		list(n4.children[:min(int(n4.childrenLen), len(n4.children))])
+		sb.WriteString(")")
+	case nodeKind16:
+		n16 := (*node16)(ref.pointer)
+		fmt.Fprintf(sb, "16(%s,%s,", hd, verifHex(n16.keys[:]))
+		list(n16.children[:min(int(n16.childrenLen), len(n16.children))])
+		sb.WriteString(")")
+	case nodeKind48:
+		n48 := (*node48)(ref.pointer)
+		fmt.Fprintf(sb, "48(%s,%s,", hd, verifHex(n48.keys[:]))
+		list(n48.children[:])
+		sb.WriteString(")")
+	case nodeKind256:
+		n256 := (*node256)(ref.pointer)
+		fmt.Fprintf(sb, "256(%s,", hd)
+		list(n256.children[:])
+		sb.WriteString(")")
+	default:
+		fmt.Fprintf(sb, "?tag%d", ref.tag)
+	}
+}
+
+func verifDump(root nodeRef, size int, leaf verifLeafFn) string {
+	var sb strings.Builder
+	fmt.Fprintf(&sb, "DUMP %d ", size)
+	if root.pointer == nil {
+		sb.WriteString("nil")
+	} else {
+		verifDumpRef(&sb, root, leaf)
+	}
+	return sb.String()
+}
+
+func (t *alphaSortedTree[K, V]) VerifDump(val func(V) string) string {
+	return verifDump(t.root, t.size, func(p unsafe.Pointer) ([]byte, []byte, string) {
+		l := (*alphaLeafNode[V])(p)
+		return l.getKey(), l.getTransformKey(), val(l.value)
+	})
+}
+
+func (t *unsignedSortedTree[K, V]) VerifDump(val func(V) string) string {
+	return verifDump(t.root, t.size, func(p unsafe.Pointer) ([]byte, []byte, string) {
+		l := (*unsignedLeafNode[V])(p)
+		return l.getKey(), l.getTransformKey(), val(l.value)
+	})
+}
+
+func (t *signedSortedTree[K, V]) VerifDump(val func(V) string) string {
+	return verifDump(t.root, t.size, func(p unsafe.Pointer) ([]byte, []byte, string) {
+		l := (*signedLeafNode[V])(p)
+		return l.getKey(), l.getTransformKey(), val(l.value)
+	})
+}
+
+func (t *floatSortedTree[K, V]) VerifDump(val func(V) string) string {
+	return verifDump(t.root, t.size, func(p unsafe.Pointer) ([]byte, []byte, string) {
+		l := (*floatLeafNode[V])(p)
+		return l.getKey(), l.getTransformKey(), val(l.value)
+	})
+}
+
+func (t *compoundSortedTree[K, V]) VerifDump(val func(V) string) string {
+	return verifDump(t.root, t.size, func(p unsafe.Pointer) ([]byte, []byte, string) {
+		l := (*compoundLeafNode[V])(p)
+		return l.getKey(), l.getTransformKey(), val(l.value)
+	})
+}
+
+func (t *collationSortedTree[K, V]) VerifDump(val func(V) string) string {
+	return verifDump(t.root, t.size, func(p unsafe.Pointer) ([]byte, []byte, string) {
+		l := (*collateLeafNode[V])(p)
+		return l.getKey(), l.getTransformKey(), val(l.value)
+	})
+}
+
+// VerifCollationBufLen reports len and cap of the collation buffer's key storage.
+func (t *collationSortedTree[K, V]) VerifCollationBufLen() (int, int) {
+	v := reflect.ValueOf(t.cok.buf).Elem().FieldByName("key")
+	if !v.IsValid() {
+		return -1, -1
+	}
+	return v.Len(), v.Cap()
+}
+
+// ---- node-level primitives ---------------------------------------------------
+
+func VerifSearchNode4(keys uint32, b byte) int    { return searchNode4(keys, b) }
+func VerifInsertPosNode4(keys uint32, b byte) int { return insertPosNode4(keys, b) }
+func VerifGetAtPos(keys uint32, pos int) byte     { return getAtPos(keys, pos) }
+func VerifSetAtPos(keys uint32, pos int, b byte) uint32 {
+	setAtPos(&keys, pos, b)
+	return keys
+}
+func VerifShiftLeftClear(keys uint32, pos int) uint32 {
+	shiftLeftClear(&keys, pos)
+	return keys
+}
+func VerifShiftRightClear(keys uint32, pos int) uint32 {
+	shiftRightClear(&keys, pos)
+	return keys
+}
+func VerifConstruct(a, b, c, d byte) uint32 { return construct(a, b, c, d) }
+func VerifDeconstruct(keys uint32) []byte   { return deconstruct(keys) }
+func VerifSearchNode16(keys *[16]byte, childrenLen uint8, b byte) int {
+	return searchNode16(keys, childrenLen, b)
+}
+func VerifInsertPosNode16(keys *[16]byte, childrenLen uint8, b byte) int {
+	return insertPosNode16(keys, childrenLen, b)
+}
+
+// VerifNode is a bare inner node driven without a tree around it; its children
+// are leaves whose value is an integer id.
+type VerifNode struct {
+	ref    nodeRef
+	leaves []*alphaLeafNode[int] // keeps the leaves reachable
+}
+
+func NewVerifNode() *VerifNode {
+	n4 := nodePools[nodeKind4].Get().(*node4)
+	return &VerifNode{ref: nodeRef{pointer: unsafe.Pointer(n4), tag: nodeKind4}}
+}
+
+func (vn *VerifNode) Add(b byte, id int) {
+	leaf := &alphaLeafNode[int]{value: id}
+	vn.leaves = append(vn.leaves, leaf)
+	vn.ref.addChild(b, nodeRef{pointer: unsafe.Pointer(leaf), tag: nodeKindLeaf})
+}
+
+func (vn *VerifNode) Del(b byte) { vn.ref.deleteChild(b) }
+
+func (vn *VerifNode) Find(b byte) (int, bool) {
+	if vn.ref.tag == nodeKindLeaf {
+		return 0, false
+	}
+	c := vn.ref.findChild(b)
+	if c == nil {
+		return 0, false
+	}
+	return (*alphaLeafNode[int])(c.pointer).value, true
+}
+
+// Enum lists the child ids in the order the library's own forward traversal visits them.
+func (vn *VerifNode) Enum() []int {
+	var out []int
+	restore := func(p unsafe.Pointer) (int, int) { return (*alphaLeafNode[int])(p).value, 0 }
+	for id := range all(vn.ref, restore) {
+		out = append(out, id)
+	}
+	return out
+}
+
+func (vn *VerifNode) Kind() int {
+	switch vn.ref.tag {
+	case nodeKind4:
+		return 4
+	case nodeKind16:
+		return 16
+	case nodeKind48:
+		return 48
+	case nodeKind256:
+		return 256
+	}
+	return 0
+}
+
+func (vn *VerifNode) Dump() string {
+	var sb strings.Builder
+	verifDumpRef(&sb, vn.ref, func(p unsafe.Pointer) ([]byte, []byte, string) {
+		return nil, nil, fmt.Sprint((*alphaLeafNode[int])(p).value)
+	})
+	return sb.String()
+}
+
+// ---- diagnostics ---------------------------------------------------------------
+
+// VerifPoolAudit drains up to max nodes from every pool, reports how many were
+// not all-zero, and puts them back. Diagnostic only.
+func VerifPoolAudit(max int) (seen, dirty int) {
+	for kind := nodeKind4; kind < nodeKindLeaf; kind++ {
+		var got []any
+		for i := 0; i < max; i++ {
+			x := nodePools[kind].Get()
+			got = append(got, x)
+			seen++
+			var zero bool
+			switch n := x.(type) {
+			case *node4:
+				zero = *n == node4{}
+			case *node16:
+				zero = *n == node16{}
+			case *node48:
+				zero = *n == node48{}
+			case *node256:
+				zero = *n == node256{}
+			}
+			if !zero {
+				dirty++
+			}
+		}
+		for _, x := range got {
+			nodePools[kind].Put(x)
+		}
+	}
+	return
+}
+
+type verifBig struct{ a [25]uint64 }
+
+// VerifLayouts describes the memory layout of the node, reference and leaf types
+// as the compiler laid them out: one "name field kind offset size" line per field.
+func VerifLayouts() []string {
+	var out []string
+	add := func(name string, v any) {
+		t := reflect.TypeOf(v)
+		out = append(out, fmt.Sprintf("type %s size %d align %d", name, t.Size(), t.Align()))
+		for i := 0; i < t.NumField(); i++ {
+			f := t.Field(i)
+			out = append(out, fmt.Sprintf("field %s %s %s %d %d", name, f.Name, f.Type.Kind(), f.Offset, f.Type.Size()))
+		}
+	}
+	add("nodeRef", nodeRef{})
+	add("node", node{})
+	add("node4", node4{})
+	add("node16", node16{})
+	add("node48", node48{})
+	add("node256", node256{})
+	leaves := func(suffix string, a, u, s, f, c, col any) {
+		add("alphaLeafNode"+suffix, a)
+		add("unsignedLeafNode"+suffix, u)
+		add("signedLeafNode"+suffix, s)
+		add("floatLeafNode"+suffix, f)
+		add("compoundLeafNode"+suffix, c)
+		add("collateLeafNode"+suffix, col)
+	}
+	leaves("[int]", alphaLeafNode[int]{}, unsignedLeafNode[int]{}, signedLeafNode[int]{}, floatLeafNode[int]{}, compoundLeafNode[int]{}, collateLeafNode[int]{})
+	leaves("[*int]", alphaLeafNode[*int]{}, unsignedLeafNode[*int]{}, signedLeafNode[*int]{}, floatLeafNode[*int]{}, compoundLeafNode[*int]{}, collateLeafNode[*int]{})
+	leaves("[string]", alphaLeafNode[string]{}, unsignedLeafNode[string]{}, signedLeafNode[string]{}, floatLeafNode[string]{}, compoundLeafNode[string]{}, collateLeafNode[string]{})
+	leaves("[struct{}]", alphaLeafNode[struct{}]{}, unsignedLeafNode[struct{}]{}, signedLeafNode[struct{}]{}, floatLeafNode[struct{}]{}, compoundLeafNode[struct{}]{}, collateLeafNode[struct{}]{})
+	leaves("[big]", alphaLeafNode[verifBig]{}, unsignedLeafNode[verifBig]{}, signedLeafNode[verifBig]{}, floatLeafNode[verifBig]{}, compoundLeafNode[verifBig]{}, collateLeafNode[verifBig]{})
+	return out
+}
